@@ -86,10 +86,11 @@ def r01_2_3(duke, R, S):
         return
     ok13 = R.anchor("R01.3", "first-pass opcode match", p1, sp=rc["sp"]) and R.anchor("R01.3", "wide sub-opcode match (pass 1)", w1, sp=rc["sp"])
     by_val = {o["value"]: o for o in S["opcodes"]}
+    inl = D.helper_inline(duke)
     label_users = set()
     label_creators = set()
     for b in range(256):
-        res, ev = D.eval_arm(p2, b)
+        res, ev = D.eval_arm(p2, b, inline=inl)
         arm = D.arm_for(p2, b)
         reads = D.reads_of(ev)[1:]        # drop the opcode byte itself
         o = by_val.get(b)
@@ -127,7 +128,7 @@ def r01_2_3(duke, R, S):
                 label_users.add(b)
         # pass 1
         if ok13:
-            res1, ev1 = D.eval_arm(p1, b)
+            res1, ev1 = D.eval_arm(p1, b, inline=inl)
             arm1 = D.arm_for(p1, b)
             reads1 = D.reads_of(ev1)[1:]
             if o is None:
@@ -149,7 +150,7 @@ def r01_2_3(duke, R, S):
     # wide forms
     wide_by_val = {w["value"]: w for w in S["wide_forms"]}
     for b in range(256):
-        res, ev = D.eval_arm(p2, 0xc4, {id(w2): ("i", b)})
+        res, ev = D.eval_arm(p2, 0xc4, {id(w2): ("i", b)}, inline=inl)
         reads = D.reads_of(ev)[2:]
         w = wide_by_val.get(b)
         arm = D.arm_for(w2, b)
@@ -159,7 +160,7 @@ def r01_2_3(duke, R, S):
             R.inst("R01.2", "wide:%s" % w["mnemonic"], _variant_key(res) == w["variant_key"], sp=arm["sp"], expect=w["variant_key"], got=T.show(res)[:60])
             R.inst("R01.2", "wide-operands:%s" % w["mnemonic"], [r[1] for r in reads] == w["operands"], sp=arm["sp"], expect=w["operands"], got=[r[1] for r in reads])
         if ok13:
-            res1, ev1 = D.eval_arm(p1, 0xc4, {id(w1): ("i", b)})
+            res1, ev1 = D.eval_arm(p1, 0xc4, {id(w1): ("i", b)}, inline=inl)
             reads1 = D.reads_of(ev1)[2:]
             if w is None:
                 R.inst("R01.3", "pass1-wide:0x%02x=invalid" % b, res1[0] == "err", sp=w1["sp"], nontrivial=False)
@@ -173,7 +174,7 @@ def r01_2_3(duke, R, S):
         rule = "R01.2" if pname == "pass2" else "R01.3"
         for opv, nm in ((0xaa, "tableswitch"), (0xab, "lookupswitch")):
             arm = D.arm_for(m, opv)
-            res, ev = D.eval_arm(m, opv)
+            res, ev = D.eval_arm(m, opv, inline=inl)
             reads = [r[1] for r in D.reads_of(ev)[1:]]
             want_prefix = ["align4", "i32:label", "i32", "i32"] if nm == "tableswitch" else ["align4", "i32:label", "i32"]
             R.inst(rule, "%s:%s-header" % (pname, nm), reads == want_prefix, sp=arm["sp"], expect=want_prefix, got=reads)
@@ -212,27 +213,27 @@ def r01_5(duke, R, S):
             width = {"u8": 1, "u16": 2, "u32": 4, "u16:len": 2}
             tag_of = {v: k for k, v in S["pool_tags"].items()}
             for tag in range(0, 32):
-                res, ev = D.eval_arm(m, tag)
+                res, ev = D.eval_around(rd["body"], m, tag)
                 arm = D.arm_for(m, tag)
                 name = tag_of.get(tag)
                 if name is None:
                     R.inst("R01.5", "pool-tag:%d=invalid" % tag, res[0] == "err", sp=arm["sp"], nontrivial=tag in (0, 2, 13, 14, 21))
                     continue
-                reads = D.reads_of(ev)[1:]
-                pushes = [x for k, x in ev.effects if k == "callnode" and H.callee_name(x) == "push"]
+                reads = [r for r in D.reads_of(ev) if H.parents_of(m, r[3]) is not None and r[3] is not m["scrut"]
+                         and not any(x is r[3] for x in H.walk(m["scrut"]))]
                 entry_variants = []
                 placeholders = 0
-                for pnode in pushes:
-                    a = H.peel(pnode["args"][0])
-                    c = H.ctor_of(a)
-                    if c and c[1] == "Some":
-                        inner = H.peel(a["args"][0])
-                        l = H.local_of(inner)
-                        src = H.let_init_of(arm["body"], l[0]) if l else inner
-                        cc = H.ctor_of(H.peel(src)) if src else None
-                        entry_variants.append(cc[1] if cc else H.render(inner))
-                    elif c and c[1] == "None":
+                for pnode, pargs in ev.callvals:
+                    if H.callee_name(pnode) != "push" or len(pargs) < 2:
+                        continue
+                    a = pargs[1]
+                    if a[0] == "v" and a[1] == "Some" and a[2]:
+                        inner = a[2][0]
+                        entry_variants.append(inner[1] if inner[0] in ("v", "st") else T.show(inner)[:40])
+                    elif a[0] == "v" and a[1] == "None":
                         placeholders += 1
+                    else:
+                        entry_variants.append(T.show(a)[:40])
                 want_v = variant_of.get(name, name)
                 R.inst("R01.5", "pool-variant:%s" % name, entry_variants == [want_v], sp=arm["sp"], expect=want_v, got=entry_variants)
                 want_bytes = sum(width[x] for x in S["pool_layout"][name] if x in width)
